@@ -5,29 +5,46 @@ Import ListNotations.
 Open Scope string_scope.
 Open Scope N_scope.
 
-(* (T) Over the route table translated from the repository in this run, with the exactly named known-open routes
-   (POST /failpoint, GET /runtime_config) given the authenticated signature: every route is on the statement's
-   whitelist (pre-flight, liveness/status), or is wrapped by `authenticate`, or is a literal that only rejects. *)
+(* (T) Over the route table translated from the repository in this run: every route is on the statement's whitelist
+   (pre-flight, liveness/status), or is wrapped by `authenticate`, or is a literal that only rejects. No route is exempt:
+   the defects C19-failpoint-public and C19-runtime-config-public are repaired; a re-appearance breaks this theorem. *)
 Theorem all_nonpublic_authenticated :
-  forallb (fun r => public r || authenticated shape_now r || always_rejects r) (repair_routes routes) = true.
-Proof. exact repaired_routes_check. Qed.
+  forallb (fun r => public r || authenticated shape_now r || always_rejects r) routes = true.
+Proof. exact routes_check. Qed.
 Print Assumptions all_nonpublic_authenticated.
 
 Theorem all_nonpublic_authenticated_forall :
-  forall r, In r (repair_routes routes) -> public r = false ->
-            authenticated shape_now r = true \/ always_rejects r = true.
+  forall r, In r routes -> public r = false -> authenticated shape_now r = true \/ always_rejects r = true.
 Proof. exact all_nonpublic_authenticated_lemma. Qed.
 Print Assumptions all_nonpublic_authenticated_forall.
 
-(* today's table: an entry that is not fine is one of the exactly named known ones *)
-Theorem open_routes_only_known : forall r, In r routes -> route_ok shape_now r = false -> known_open_route r = true.
-Proof. exact open_routes_are_known. Qed.
-Print Assumptions open_routes_only_known.
+Theorem no_open_route : open_routes shape_now routes = [].
+Proof. exact no_open_routes_check. Qed.
+Print Assumptions no_open_route.
 
-(* (T) every handler with the authenticated signature uses its user argument, except the exactly named known ones *)
-Theorem user_ignored_only_known : forallb known_ignoring handlers_ignoring_user = true.
-Proof. exact user_ignored_only_known_check. Qed.
-Print Assumptions user_ignored_only_known.
+(* (T) handler facts. Every handler with the authenticated signature reaches an authorization decision on its user
+   argument (AuthorizeUnrestricted / AuthorizeDatabase / AuthorizeWrite / AuthorizeQuery whose negative outcome leaves
+   the handler), except the two routes for which authentication alone is asked and the routes named by a finding that
+   is OPEN in this run (today: the log-store data plane, C19-logstore-data-unprivileged). *)
+Theorem every_handler_decides : unguarded open_findings handler_guards = [].
+Proof. exact guards_check. Qed.
+Print Assumptions every_handler_decides.
+
+Theorem every_handler_decides_forall :
+  forall g, In g handler_guards -> decides g = true \/ guard_exempt open_findings g = true.
+Proof. exact guards_forall. Qed.
+Print Assumptions every_handler_decides_forall.
+
+(* (T) the routes the statement names by what they do make exactly the decision it asks for: catalogue changes and server
+   control ask for the administrator (/debug/ctrl, /backup/..., /failpoint, tsdb creation, log-store repository and
+   logstream management: repairs 8b29366 21eba35 e8b49bf), log-store listings for read-or-write on the repository
+   (3986ddb), writes for the write authorizer, /query for the statement authorizer. *)
+Theorem named_routes_decide_as_expected : forallb (expected_ok handler_guards) expected_guards = true.
+Proof. exact expected_guards_check. Qed.
+Print Assumptions named_routes_decide_as_expected.
+
+Theorem handler_facts_cover_table : forallb has_guard_row routes = true.
+Proof. exact guards_cover_routes_check. Qed.
 
 (* (T) AddRoutes wraps the meta.User signature with authenticate(.., h.Config.AuthEnabled), replaces no handler
    afterwards, registers by (pattern, method); nothing registers on the mux elsewhere; ServeHTTP ends in the mux. *)
@@ -35,16 +52,17 @@ Theorem addroutes_shape : shape_ok shape_now = true.
 Proof. exact shape_check. Qed.
 Print Assumptions addroutes_shape.
 
-(* (T) no path prefix is dispatched around the mux except the three exactly named known ones *)
-Theorem no_prefix_bypass : repair_prefixes prefixes = [].
+(* (T) no path prefix is dispatched around the mux except those named by the finding C19-debug-public while it is open *)
+Theorem no_prefix_bypass : unexempt_prefixes open_findings prefixes = [].
 Proof. exact no_prefix_bypass_check. Qed.
 Print Assumptions no_prefix_bypass.
 
-Theorem no_prefix_bypass_forall : forall guards path p, dispatch guards prefixes path = Some p -> known_prefix p = true.
-Proof. exact prefix_bypass_only_known. Qed.
+Theorem no_prefix_bypass_forall : forall guards path p, dispatch guards prefixes path = Some p ->
+  mem "C19-debug-public" open_findings = true /\ known_prefix p = true.
+Proof. exact prefix_bypass_only_open_finding. Qed.
 Print Assumptions no_prefix_bypass_forall.
 
-Theorem repaired_dispatch_reaches_mux : forall guards path, dispatch guards (repair_prefixes prefixes) path = None.
+Theorem repaired_dispatch_reaches_mux : forall guards path, dispatch guards (unexempt_prefixes open_findings prefixes) path = None.
 Proof. exact repaired_dispatch_is_mux. Qed.
 Print Assumptions repaired_dispatch_reaches_mux.
 
@@ -115,13 +133,13 @@ Proof. exact grant_revoke_exact_lemma. Qed.
 Print Assumptions grant_revoke_exact.
 
 Theorem grant_effect : forall us n d p u q,
-  find_user us n = Some u -> u_admin u = false ->
+  find_user us n = Some u -> u_admin u = false -> u_rw u = false ->
   authorize_by_name (grant us n d p) n q d = priv_eqb q NoPriv || (priv_eqb p q || priv_eqb p AllPriv).
 Proof. exact set_privilege_effect. Qed.
 Print Assumptions grant_effect.
 
 Theorem revoke_effect : forall us n d p u,
-  find_user us n = Some u -> u_admin u = false -> p <> NoPriv ->
+  find_user us n = Some u -> u_admin u = false -> u_rw u = false -> p <> NoPriv ->
   authorize_by_name (revoke us n d p) n p d = false.
 Proof. exact revoke_effect_lemma. Qed.
 Print Assumptions revoke_effect.
@@ -142,7 +160,7 @@ Print Assumptions serve_grant_revoke_exact.
 (* ... and for n on d it becomes exactly what the granted privilege says *)
 Theorem serve_after_grant_is_the_grant : forall sh cfg us r n d p u c want,
   auth_enabled cfg = true -> admin_exists us = true -> authenticated sh r = true -> always_rejects r = false ->
-  authenticate cfg us c = Pass (Some u) -> u_name u = n -> u_admin u = false -> want <> NoPriv ->
+  authenticate cfg us c = Pass (Some u) -> u_name u = n -> u_admin u = false -> u_rw u = false -> want <> NoPriv ->
   fst (serve sh cfg (grant us n d p) r (KQuery [[RDb "" want]]) (mk_request c d)) =
     if priv_eqb p want || priv_eqb p AllPriv then 200 else 403.
 Proof. exact serve_after_grant. Qed.
@@ -163,7 +181,7 @@ Theorem admin_only_statement_types :
 Proof. exact admin_only_types_check. Qed.
 
 Theorem admin_requirement_refuses_non_admin : forall u dflt s,
-  In RAdmin s -> u_admin u = false -> authorize_query u dflt [s] = false.
+  In RAdmin s -> u_admin u = false -> u_rw u = false -> authorize_query u dflt [s] = false.
 Proof. exact admin_requirement_refuses. Qed.
 Print Assumptions admin_requirement_refuses_non_admin.
 
@@ -173,9 +191,84 @@ Theorem every_required_privilege_must_hold : forall u dflt s d p,
 Proof. exact every_requirement_must_hold. Qed.
 Print Assumptions every_required_privilege_must_hold.
 
+(* ---- log-store listings (GET /api/v1/repository, repair 3986ddb) ---- *)
+(* a listing returns exactly the repositories of the catalogue the user may read or write ... *)
+Theorem listing_exact : forall u dbs d,
+  In d (visible_repositories u dbs) <-> In d dbs /\ (has_priv u ReadPriv d \/ has_priv u WritePriv d).
+Proof. exact listing_exact_lemma. Qed.
+Print Assumptions listing_exact.
+
+(* ... each once, in the catalogue's order ... *)
+Theorem listing_no_duplicates : forall u dbs, NoDup dbs -> NoDup (visible_repositories u dbs).
+Proof. exact listing_nodup_lemma. Qed.
+
+(* ... and that is what the endpoint answers for valid credentials (invalid ones: invalid_creds_rejected) *)
+Theorem listing_served : forall sh cfg us r dbs rq u,
+  auth_enabled cfg = true -> admin_exists us = true -> authenticated sh r = true -> always_rejects r = false ->
+  valid_creds cfg us (rq_creds rq) u ->
+  serve sh cfg us r (KListRepos dbs) rq = (200, [EffList (visible_repositories u dbs)]).
+Proof. exact listing_served_lemma. Qed.
+Print Assumptions listing_served.
+
+Theorem listing_admin_sees_all : forall u dbs, u_admin u = true -> visible_repositories u dbs = dbs.
+Proof. exact admin_sees_all_lemma. Qed.
+
+Theorem listing_without_privileges_is_empty : forall u dbs,
+  u_admin u = false -> u_rw u = false -> u_privs u = [] -> visible_repositories u dbs = [].
+Proof. exact nobody_sees_nothing_lemma. Qed.
+
+(* GRANT p ON d TO n changes n's listing at exactly d: d is listed iff p is a privilege, everything else as before;
+   nobody else's listing changes (serve_grant_revoke_exact covers KListRepos) *)
+Theorem listing_after_grant : forall sh cfg us r n d p u c x dbs,
+  auth_enabled cfg = true -> admin_exists us = true -> authenticated sh r = true -> always_rejects r = false ->
+  authenticate cfg us c = Pass (Some u) -> u_name u = n -> u_admin u = false -> u_rw u = false ->
+  serve sh cfg (grant us n d p) r (KListRepos dbs) (mk_request c x) = (200, [EffList (filter (see_after u d p) dbs)]).
+Proof. exact listing_after_grant_lemma. Qed.
+Print Assumptions listing_after_grant.
+
+(* ---- accounts with partition privileges (UserInfo.Rwuser) ---- *)
+(* they pass every per-database check and see every repository; GRANT / REVOKE never changes what they may do; they are
+   not administrators for the control endpoints; a statement entry without the Rwuser flag, or the statement's own
+   refusing case, stops them unless the statement's own case lets them through *)
+Theorem rwuser_bypasses_database_privileges : forall u p d, u_rw u = true -> authorize_database u p d = true.
+Proof. exact rw_authorize_database. Qed.
+
+Theorem rwuser_privileges_irrelevant : forall cfg k rq u d p, u_rw u = true ->
+  inner cfg k rq (Some (set_priv_user u d p)) = inner cfg k rq (Some u).
+Proof. exact rw_privileges_irrelevant. Qed.
+Print Assumptions rwuser_privileges_irrelevant.
+
+Theorem rwuser_is_not_administrator : forall cfg rq u, auth_enabled cfg = true -> u_admin u = false ->
+  inner cfg KAdminOnly rq (Some u) = (403, []).
+Proof. exact rw_not_unrestricted. Qed.
+
+Theorem rwuser_refused_by_unflagged_entry : forall u db s, u_rw u = true -> u_admin u = false ->
+  In RAdmin s -> ~ In RRwAllow s -> authorize_query u db [s] = false.
+Proof. exact rw_refused_by_unflagged_entry. Qed.
+Print Assumptions rwuser_refused_by_unflagged_entry.
+
+Theorem rwuser_refused_by_statement_case : forall u db s, u_rw u = true -> u_admin u = false ->
+  In RRwDeny s -> ~ In RRwAllow s -> authorize_query u db [s] = false.
+Proof. exact rw_refused_by_case. Qed.
+
+Theorem rwuser_database_statements_allowed : forall u db s, u_rw u = true ->
+  (forall rp, In rp s -> exists d p, rp = RDb d p) -> authorize_query u db [s] = true.
+Proof. exact rw_database_statements_allowed. Qed.
+
+Theorem rwuser_markers_ignored_by_ordinary_users : forall u db s m, u_rw u = false -> (m = RRwAllow \/ m = RRwDeny) ->
+  authorize_stmt u db (s ++ [m])%list = authorize_stmt u db s.
+Proof. exact markers_ignored_by_plain. Qed.
+
+(* (T) the statement cases of AuthorizeQueryForRwUser in the source are the ones the model gives a meaning to *)
+Theorem rwuser_rules_match : list_eqb rwrule_eqb gen_rw_rules model_rw_rules = true /\
+  find_rwrule model_rw_rules "<tail>" = Some rw_tail_expected.
+Proof. exact rwuser_rules_match_check. Qed.
+Print Assumptions rwuser_rules_match.
+
 (* non-vacuity: hypotheses are satisfiable and the interesting outcomes all occur *)
 Definition ex_users : list user :=
-  [mk_user "root" "rootpw" true []; mk_user "ro" "ropw" false [("db1", ReadPriv)]; mk_user "wo" "wopw" false [("db1", WritePriv)]].
+  [mk_user "root" "rootpw" true false []; mk_user "ro" "ropw" false false [("db1", ReadPriv)];
+   mk_user "wo" "wopw" false false [("db1", WritePriv)]; mk_user "rw" "rwpw" false true []].
 Definition ex_cfg : config := mk_config true true [].
 Definition ex_sel : rkind := KQuery [[RDb "" ReadPriv]].
 Definition ex_rq (u p : string) : request := mk_request (mk_creds_in u p HNone) "db1".
@@ -195,8 +288,38 @@ Example C19_example_outcomes :
   serve shape_now ex_cfg (revoke ex_users "ro" "db1" ReadPriv) ex_route ex_sel (ex_rq "ro" "ropw") = (403, []).
 Proof. vm_compute. repeat split. Qed.
 
-Example C19_example_valid_creds : valid_creds ex_cfg ex_users (mk_creds_in "ro" "ropw" HNone) (mk_user "ro" "ropw" false [("db1", ReadPriv)]).
+Example C19_example_valid_creds : valid_creds ex_cfg ex_users (mk_creds_in "ro" "ropw" HNone) (mk_user "ro" "ropw" false false [("db1", ReadPriv)]).
 Proof. apply authenticate_pass_sound; reflexivity. Qed.
 
 Example C19_example_table_nonempty : (10 <? N.of_nat (length routes)) = true /\ existsb (authenticated shape_now) routes = true.
 Proof. vm_compute. split; reflexivity. Qed.
+
+Example C19_example_listing :
+  serve shape_now ex_cfg ex_users ex_route (KListRepos ["db1"; "db2"]) (ex_rq "ro" "ropw") = (200, [EffList ["db1"]]) /\
+  serve shape_now ex_cfg ex_users ex_route (KListRepos ["db1"; "db2"]) (ex_rq "root" "rootpw") = (200, [EffList ["db1"; "db2"]]) /\
+  serve shape_now ex_cfg ex_users ex_route (KListRepos ["db1"; "db2"]) (ex_rq "rw" "rwpw") = (200, [EffList ["db1"; "db2"]]) /\
+  serve shape_now ex_cfg (grant ex_users "ro" "db2" WritePriv) ex_route (KListRepos ["db1"; "db2"]) (ex_rq "ro" "ropw") = (200, [EffList ["db1"; "db2"]]) /\
+  serve shape_now ex_cfg (revoke ex_users "ro" "db1" AllPriv) ex_route (KListRepos ["db1"; "db2"]) (ex_rq "ro" "ropw") = (200, [EffList []]) /\
+  serve shape_now ex_cfg ex_users ex_route KRepoSee (ex_rq "wo" "wopw") = (200, [EffHandler]) /\
+  serve shape_now ex_cfg ex_users ex_route KRepoSee (mk_request (mk_creds_in "wo" "wopw" HNone) "db2") = (403, []) /\
+  serve shape_now ex_cfg ex_users ex_route (KListRepos ["db1"]) (ex_rq "ro" "bad") = (401, []).
+Proof. vm_compute. repeat split. Qed.
+
+Example C19_example_rwuser :
+  serve shape_now ex_cfg ex_users ex_route KWrite (ex_rq "rw" "rwpw") = (204, [EffWrite "db1"]) /\
+  serve shape_now ex_cfg ex_users ex_route KAdminOnly (ex_rq "rw" "rwpw") = (403, []) /\
+  serve shape_now ex_cfg ex_users ex_route (KQuery [[RAdminRw]]) (ex_rq "rw" "rwpw") = (200, [EffQuery "db1" [[RAdminRw]]]) /\
+  serve shape_now ex_cfg ex_users ex_route (KQuery [[RAdminRw]]) (ex_rq "wo" "wopw") = (403, []) /\
+  serve shape_now ex_cfg ex_users ex_route (KQuery [[RAdmin]]) (ex_rq "rw" "rwpw") = (403, []) /\
+  serve shape_now ex_cfg ex_users ex_route (KQuery [[RAdmin; RRwAllow]]) (ex_rq "rw" "rwpw") = (200, [EffQuery "db1" [[RAdmin; RRwAllow]]]) /\
+  serve shape_now ex_cfg ex_users ex_route (KQuery [[RAdminRw; RRwDeny]]) (ex_rq "rw" "rwpw") = (403, []) /\
+  rw_marker model_rw_rules "GrantStatement" false = [RRwAllow] /\ rw_marker model_rw_rules "DropUserStatement" true = [] /\
+  rw_marker model_rw_rules "DropDatabaseStatement" true = [RRwDeny] /\ rw_marker model_rw_rules "KillQueryStatement" false = [].
+Proof. vm_compute. repeat split. Qed.
+
+Example C19_example_handler_facts :
+  decides (mk_hguard "POST" "/write" ["write"]) = true /\ decides (mk_hguard "GET" "/x" []) = false /\
+  guard_ok [] (mk_hguard "POST" "/repo/{repository}/logstreams/{logStream}/records" []) = false /\
+  guard_ok ["C19-logstore-data-unprivileged"] (mk_hguard "POST" "/repo/{repository}/logstreams/{logStream}/records" []) = true /\
+  (5 <? N.of_nat (length handler_guards)) = true.
+Proof. vm_compute. repeat split. Qed.
